@@ -413,6 +413,9 @@ pub fn c03_seq_families(tier: &str) -> Vec<SeqSpec> {
     fams.push(spec("C03-full/T300", &["T300"], k3(), a_c03(), if t { 5 } else { 4 }, ck).flush());
     fams.push(spec("C03-small/T300", &["T300"], k2(), a_c03_small(), if t { 8 } else { 6 }, ck).flush());
     fams.push(spec("C03-small/M2", &["M2"], k2(), a_c03_small(), if t { 7 } else { 5 }, ck).lazy());
+    // T1: every table holds one entry, so the versions of one key pinned by snapshots straddle
+    // adjacent files of a level
+    fams.push(spec("C03-small/T1", &["T1"], k2(), a_c03_small(), if t { 8 } else { 5 }, ck).flush());
     if t {
         fams.push(spec("C03-full/T1", &["T1"], k3(), a_c03(), 5, ck).flush());
         fams.push(spec("C03-full/M2", &["M2"], k3(), a_c03(), 5, ck));
